@@ -17,7 +17,7 @@ PYTHONPATH=$tmp/r timeout 300 /venv/bin/python $dst/demo.py >$tmp/demo_patched.t
 suite=$(PYTHONPATH=$tmp/r timeout 1500 /venv/bin/python -m pytest -q -p no:cacheprovider -n 6 --timeout=900 nixio/test 2>&1 | tail -1)
 echo "applies=$applies demo_clean_rc=$demo_clean demo_patched_rc=$demo_patched suite='$suite'"
 results=""
-cd /verif
+cd ${VERIF_DIR:-/verif}
 for c in $checks; do
   out=$(NIXPY_REPO=$tmp/r PYTHONHASHSEED=0 timeout 1500 /venv/bin/python -m nixsim.cli $c --no-evidence 2>&1); rc=$?
   sig=$(echo "$out" | grep -m1 "signature:" | sed 's/^ *signature: //')
